@@ -2,7 +2,7 @@
 """Generates MANIFEST.json from the table below (single source of truth for the interface)."""
 import json, subprocess
 
-HOOK_COMMITS = ['1c66e29b6', 'c5cd21b88']
+HOOK_COMMITS = ['1c66e29b6', 'c5cd21b88', 'bb9f2e86a']
 
 # id -> dict(claimed, level, technique, text, note, design_ref, engine, reason)
 P = {}
